@@ -146,6 +146,7 @@ func c16(r *core.Run) {
 		r.Floor("C16.P1", "data deletes reachable from GC", n, 2)
 	}
 	refCountMultiplicity(r, "C16.A2")
+	refCountDisjoint(r, "C16.A3")
 }
 
 // derivesViaCells: DerivesFrom, additionally following copies through local arrays/slices
